@@ -5,3 +5,5 @@ import AriesVerif.C02.Props
 #print axioms Env.C02_no_reattribution
 #print axioms Env.forgery_accepted_before_fix
 #print axioms Env.forgery_refused_now
+#print axioms Env.C02_attribution_is_authentication
+#print axioms Env.C02_apu_first_splits_them
